@@ -35,7 +35,7 @@ theorem sim_start (fns : List FnDecl) (s : St) (w : Watch) (t : Nat) (h : Rel fn
         simp only [hd', hs', hxd, hxs, Bool.or_self, Bool.false_eq_true, ↓reduceIte, hr.b, beq_self_eq_true]
         refine ⟨_, rfl, ?_⟩
         refine rel_set fns s w h t task _ x _ ht hx ?_ ?_ ?_ ?_ <;> try rfl
-        exact ⟨fun _ => rfl, by simp [hd', hxd], rfl, hr.b, hr.key⟩
+        exact ⟨fun _ => rfl, by simp [hd', hxd], rfl, hr.b, hr.key, hr.out⟩
 
 theorem sim_resume (fns : List FnDecl) (s : St) (w : Watch) (t : Nat) (thrown : Bool) (h : Rel fns s w) :
     ∃ w', watchStep fns w (observe fns s (.resume t thrown)).2 = .ok w' ∧
@@ -50,20 +50,26 @@ theorem sim_resume (fns : List FnDecl) (s : St) (w : Watch) (t : Nat) (thrown : 
     simp only [step, ht, hx]
     by_cases hd : task.out.isSome = true
     · have : x.done = true := by rw [hr.done, hd]
-      simp only [hd, this, ↓reduceIte]
+      simp only [hd, this, Bool.true_or, ↓reduceIte]
       exact ⟨w, rfl, h⟩
     · have hd' : task.out.isSome = false := by simpa using hd
       have hxd : x.done = false := by rw [hr.done, hd']
-      cases thrown with
-      | true =>
-        simp only [hd', hxd, Bool.false_eq_true, ↓reduceIte, beq_self_eq_true]
-        refine ⟨_, rfl, ?_⟩
-        exact rel_wset fns s w h t task x _ ht hx ⟨fun _ => rfl, by simp [hd', hxd], hr.started, hr.b, hr.key⟩
-      | false =>
-        simp only [hd', hxd, Bool.false_eq_true, ↓reduceIte, beq_self_eq_true]
-        refine ⟨_, rfl, ?_⟩
-        refine rel_set fns s w h t task _ x _ ht hx ?_ ?_ ?_ ?_ <;> try rfl
-        exact ⟨fun z => by simp at z ⊢, by simp [hd', hxd], hr.started, hr.b, hr.key⟩
+      by_cases hs : task.started = true
+      · have hxs : x.started = true := by rw [hr.started, hs]
+        cases thrown with
+        | true =>
+          simp only [hd', hs, hxd, hxs, Bool.not_true, Bool.or_self, Bool.false_eq_true, ↓reduceIte, beq_self_eq_true]
+          refine ⟨_, rfl, ?_⟩
+          exact rel_wset fns s w h t task x _ ht hx ⟨fun _ => rfl, by simp [hd', hxd], by simp [hxs, hs], hr.b, hr.key, hr.out⟩
+        | false =>
+          simp only [hd', hs, hxd, hxs, Bool.not_true, Bool.or_self, Bool.false_eq_true, ↓reduceIte, beq_self_eq_true]
+          refine ⟨_, rfl, ?_⟩
+          refine rel_set fns s w h t task _ x _ ht hx ?_ ?_ ?_ ?_ <;> try rfl
+          exact ⟨fun z => by simp at z ⊢, by simp [hd', hxd], by simp [hxs, hs], hr.b, hr.key, hr.out⟩
+      · have hs' : task.started = false := by simpa using hs
+        have hxs : x.started = false := by rw [hr.started, hs']
+        simp only [hd', hs', hxd, hxs, Bool.not_false, Bool.or_true, Bool.false_eq_true, ↓reduceIte]
+        exact ⟨w, rfl, h⟩
 
 theorem sim_suspend (fns : List FnDecl) (s : St) (w : Watch) (t : Nat) (h : Rel fns s w) :
     ∃ w', watchStep fns w (observe fns s (.suspend t)).2 = .ok w' ∧ Rel fns (observe fns s (.suspend t)).1 w' := by
@@ -77,14 +83,33 @@ theorem sim_suspend (fns : List FnDecl) (s : St) (w : Watch) (t : Nat) (h : Rel 
     simp only [step, ht, hx]
     by_cases hd : task.out.isSome = true
     · have : x.done = true := by rw [hr.done, hd]
-      simp only [hd, this, ↓reduceIte]
+      simp only [hd, this, Bool.true_or, ↓reduceIte]
       exact ⟨w, rfl, h⟩
     · have hd' : task.out.isSome = false := by simpa using hd
       have hxd : x.done = false := by rw [hr.done, hd']
-      simp only [hd', hxd, Bool.false_eq_true, ↓reduceIte, beq_self_eq_true]
-      refine ⟨_, rfl, ?_⟩
-      refine rel_set fns s w h t task _ x _ ht hx ?_ ?_ ?_ ?_ <;> try rfl
-      exact ⟨fun z => by simp at z ⊢, by simp [hd', hxd], hr.started, hr.b, hr.key⟩
+      by_cases hs : task.started = true
+      · have hxs : x.started = true := by rw [hr.started, hs]
+        simp only [hd', hs, hxd, hxs, Bool.not_true, Bool.or_self, Bool.false_eq_true, ↓reduceIte, beq_self_eq_true]
+        refine ⟨_, rfl, ?_⟩
+        refine rel_set fns s w h t task _ x _ ht hx ?_ ?_ ?_ ?_ <;> try rfl
+        exact ⟨fun z => by simp at z ⊢, by simp [hd', hxd], by simp [hxs, hs], hr.b, hr.key, hr.out⟩
+      · have hs' : task.started = false := by simpa using hs
+        have hxs : x.started = false := by rw [hr.started, hs']
+        simp only [hd', hs', hxd, hxs, Bool.not_false, Bool.or_true, Bool.false_eq_true, ↓reduceIte]
+        exact ⟨w, rfl, h⟩
+
+/-- reading a task: the reader receives the outcome the observer recorded at the completion -/
+theorem sim_await (fns : List FnDecl) (s : St) (w : Watch) (t : Nat) (h : Rel fns s w) :
+    ∃ w', watchStep fns w (observe fns s (.await t)).2 = .ok w' ∧ Rel fns (observe fns s (.await t)).1 w' := by
+  simp only [watchStep, observe_op, observe_res, observe_fst]
+  cases ht : s.tasks[t]? with
+  | none =>
+    simp only [step, ht, rel_info_none fns s w h t ht]
+    exact ⟨w, rfl, h⟩
+  | some task =>
+    obtain ⟨x, hx, hr⟩ := rel_info fns s w h t task ht
+    simp only [step, ht, hx, hr.out, beq_self_eq_true, ↓reduceIte]
+    exact ⟨w, rfl, h⟩
 
 /-- `dirty()`: with arguments that bind, "nothing in flight" for exactly that call; with arguments that do not bind
     the model either raises and changes nothing, or removes one entry of that function and thread -/
@@ -189,8 +214,8 @@ theorem sim_complete (fns : List FnDecl) (s : St) (w : Watch) (t : Nat) (o : Out
       have hxd : x.done = false := by rw [hr.done, hd']
       simp only [hd', hxd, Bool.false_eq_true, ↓reduceIte, beq_self_eq_true]
       refine ⟨_, rfl, ?_⟩
-      have hrel' : TRel fns { task with running := false, out := some o } { x with running := false, done := true } :=
-        ⟨fun z => by simp at z, rfl, hr.started, hr.b, hr.key⟩
+      have hrel' : TRel fns { task with running := false, out := some o } { x with running := false, done := true, out := some o } :=
+        ⟨fun z => by simp at z, rfl, hr.started, hr.b, hr.key, rfl⟩
       obtain ⟨hlen, hpt⟩ := pt_set fns s w h t _ _ hrel'
       -- no table entry other than the one under its own key can point to t
       have honly : ∀ k, mget s.table k = some t → k = task.key ∧ task.reg = true := by
